@@ -78,8 +78,15 @@ def findsOut (v : View) (pat : List Atom) (m0 : MSt) (nsave : Nat) : String :=
   let caps := match spec with
     | [c] => fmtSpecHit v pat nsave c
     | _ => "-"
+  -- the model's exhaustive scan from the same initial state (C10_finds_iff_one_reported):
+  -- nrep = number of matches it reports, rcaps = the save array recorded with the only one
+  let (nrep, rcaps) := match scanAll (next v pat) (m0.stop - m0.start + 2) m0 (Array.replicate nsave 0) with
+    | .ok a => (toString a.hits.length, match a.hits with | [h] => fmtSave h.2 | _ => "-")
+    | _ => ("-", "-")
+  -- nr: the pattern does not read the save array (hypothesis of C10_finds_iff_one_reported)
+  let nr := pat.all noRead && pat.all Atom.ok
   -- hyp: hypotheses of C10_finds_iff_unique_partial; hypw: those of the (false) literal statement
-  s!"{ans} ## spec={b01 (spec.length == 1)} caps={caps} specn={spec.length} hyp={b01 hyp} hypw={b01 hypw}"
+  s!"{ans} ## nrep={nrep} rcaps={rcaps} nr={b01 nr} spec={b01 (spec.length == 1)} caps={caps} specn={spec.length} hyp={b01 hyp} hypw={b01 hypw}"
 
 def patExecOut (v : View) (pat : List Atom) (cursor nsave : Nat) : String :=
   match Exec.run (Exec.ofView v) pat cursor (Array.replicate nsave 0) with
